@@ -3,6 +3,7 @@ import Mathlib.Algebra.Ring.GeomSum
 import Mathlib.Algebra.Field.GeomSum
 import Mathlib.Algebra.Order.Group.Int
 open C03Lemmas
+open scoped C01
 namespace C03Lemmas
 open Model.C03
 variable {R V : Type} [Field R] [Field V]
@@ -151,5 +152,35 @@ theorem allpass_1d (e : R → V) (he : ∀ a b, e (a + b) = e a * e b) (he0 : e 
       simp [hnd, hii]
   rw [Finset.sum_congr rfl key, Finset.sum_ite_eq' (Finset.range n) i' (fun _ => (M : V) * f i')]
   simp [hi']
+
+theorem coord_int (N l l' : Nat) (p : ℤ) (h : (l' : ℤ) = (l : ℤ) + p) : (coord N l' : R) = coord N l + (p : R) := by
+  simp only [coord, ofInt_eq, h]; push_cast; ring
+
+/-- shift by `p` whole output samples (either sign): element `l + p` of the result with shift `s + p` is a unit phase (the same
+for every input sample) times element `l` of the result with shift `s` -/
+theorem mdft1_shift_translates_int (e : R → V) (he : ∀ a b, e (a + b) = e a * e b) (n N : Nat) (α s : R) (p : ℤ)
+    (f : Nat → V) (l l' : Nat) (h : (l' : ℤ) = (l : ℤ) + p) :
+    mdft1 e n N α (s + p) f l' = e (-((p : R) * (coord N l - s) * α)) * mdft1 e n N α s f l := by
+  simp only [mdft1_eq_sum, Finset.mul_sum, coord_int N l l' p h]
+  refine Finset.sum_congr rfl fun i _ => ?_
+  rw [mul_left_comm, ← he]
+  congr 2
+  ring
+
+theorem mdft2_separable (e : R → V) (m n M N : Nat) (αy αx sy sx : R) (norm : V) (u v : Nat → V) (k l : Nat) :
+    mdft2 e m n M N αy αx sy sx norm (fun j i => u j * v i) k l
+      = norm * (mdft1 e m M αy sy u k * mdft1 e n N αx sx v l) := by
+  simp only [mdft2, mdft1_smul]
+  rw [show (fun j => u j * mdft1 e n N αx sx v l) = fun j => mdft1 e n N αx sx v l * u j from funext fun j => mul_comm _ _,
+    mdft1_smul]
+  ring
+
+/-- a point source on one axis -/
+theorem mdft1_delta (e : R → V) (n N : Nat) (α s : R) (a : V) (p l : Nat) (hp : p < n) :
+    mdft1 e n N α s (fun i => if i = p then a else 0) l = a * e ((coord n p - s) * (coord N l - s) * α) := by
+  rw [mdft1_eq_sum, Finset.sum_eq_single p]
+  · simp
+  · intro b _ hb; simp [hb]
+  · intro h; exact absurd (Finset.mem_range.mpr hp) h
 
 end C03Lemmas
